@@ -1,5 +1,5 @@
 """C13 — no lost wake-up (pairing discipline of the notification protocol)."""
-from cfg import Inconclusive, op_place, show, walk
+from cfg import strip_casts, Inconclusive, op_place, show, walk
 from common import (atomic_op, calls_to, callee, closure_creations, closure_consumer, field_chain, fn_of,
                     find_fn, get_fn, head_sources, peel, site, guards_of, field_assigns, is_diverging)
 from common import bool_param, is_arg, GuardStates
@@ -94,14 +94,27 @@ def rule_run_exit(ctx):
     # leaves on the result's true edge — that exit is a cancelled (and marked) one
     cancel_edges = []
     for bi, si, s in field_assigns(fn, "was_canceled"):
-        if si == "term" or "use" not in s["rv"]:
+        if si == "term":
             continue
-        v = fn.expr_of_operand(s["rv"]["use"])
-        if v[0] == "call" and str(v[1]).endswith("par_quicksort"):
+        def unnot(e_):
+            e_ = strip_casts(e_)
+            par_ = 0
+            while e_[0] == "un" and e_[1] == "Not":
+                e_ = strip_casts(e_[2]); par_ += 1
+            return e_, par_ % 2
+        v, vp = unnot(fn.expr_of_rvalue(s["rv"]))
+        if v[0] == "call" and str(v[1]).endswith("par_quicksort") and vp == 0:
             for gbi in sorted(fn.live):
                 t = fn.blocks[gbi]["term"]
-                if t["k"] == "switch" and fn.expr_of_operand(t["discr"]) == v and (fn.dominates(bi, gbi) or gbi in fn.reach_from(bi)):
-                    cancel_edges.append((gbi, t["otherwise"]))
+                if t["k"] != "switch":
+                    continue
+                d_, dp = unnot(fn.expr_of_operand(t["discr"]))
+                if d_ == v and (fn.dominates(bi, gbi) or gbi in fn.reach_from(bi)):
+                    # the edge on which the sort's result is `true` (cancelled)
+                    if dp == 0:
+                        cancel_edges.append((gbi, t["otherwise"]))
+                    else:
+                        cancel_edges += [(gbi, bb) for val_, bb in t["arms"] if val_ == 0]
     if fn.all_paths_to_return_pass(0, via_nodes=via, via_edges=cancel_edges):
         ctx.ok(site(fn, 0), "every normal exit of the run is cancelled (was_canceled = true) or passes a flag check that notifies")
     else:
